@@ -11,6 +11,7 @@ import itertools
 import json
 
 from mon import refbufr as R
+from mon import handover
 from mon.compare import close, diff_message, impl_subset, td_of, jsonable, opsig
 from mon.gen import cases
 from mon.gen import failures
@@ -257,6 +258,9 @@ def transparency(ctx, enc, dec):
             bu = enc.process(json.dumps(fju)).serialized_bytes
             sc = snapshot(dec.process(bc))
             su = snapshot(dec.process(bu))
+            # handing a decoded message on (subset / rendered object) and encoding it in the other layout is part of "the same
+            # data encoded both ways": object histories on both
+            handover.on_message(ctx, bc if k % 2 else bu, spec, site='transparency', p=0.3)
         except Exception as e:
             ctx.violate('transparency/exception:%s/ops[%s]' % (type(e).__name__, opsig(msg.ids)),
                         'encoding/decoding the same data compressed and uncompressed raised %r' % (e,), spec, exc=e)
